@@ -212,9 +212,11 @@ func (ex *exampleValidator) validateExampleInResponse(resp *spec.Response, respo
 	if response.Examples != nil {
 		if response.Schema != nil {
 			if example, ok := response.Examples["application/json"]; ok {
-				res.MergeAsWarnings(
-					newSchemaValidator(response.Schema, s.spec.Spec(), path+".examples", s.KnownFormats, s.schemaOptions).Validate(example),
-				)
+				if s.canJudge(response.Schema) { // otherwise the schema reaches a reference reported as unresolved
+					res.MergeAsWarnings(
+						newSchemaValidator(response.Schema, s.spec.Spec(), path+".examples", s.KnownFormats, s.schemaOptions).Validate(example),
+					)
+				}
 			} else {
 				// TODO: validate other media types too
 				res.AddWarnings(examplesMimeNotSupportedMsg(operationID, responseName))
@@ -235,7 +237,7 @@ func (ex *exampleValidator) validateExampleValueSchemaAgainstSchema(path, in str
 	s := ex.SpecValidator
 	res := pools.poolOfResults.BorrowResult()
 
-	if schema.Example != nil {
+	if schema.Example != nil && s.canJudge(schema) {
 		// building the validator expands a $ref schema in place, which replaces its Example: read the value first
 		value := schema.Example
 		res.MergeAsWarnings(
